@@ -218,7 +218,7 @@ static void cmd_stream(int nt, char **t)
 /* ---- reset / reuse ---- */
 static void cmd_reset(int nt, char **t)
 {
-	int flags, depth; size_t na, ny; unsigned char *a, *y; struct json_tokener *tok, *fresh; struct res r1, r2, rf; long live_new, live_after_ok, live_reset, live_cycle1 = 0, live_cycleN = 0; int i;
+	int flags, flags_y, depth; size_t na, ny; unsigned char *a, *y; struct json_tokener *tok, *fresh; struct res r1, r2, rf; long live_new, live_after_ok, live_reset, live_cycle1 = 0, live_cycleN = 0; int i;
 	char *buf; struct json_object *o; int a_err; int st_a, ss_a, depth_a; size_t chunk_len[64]; int nchunks = 0;
 	if (nt < 5) { ob_puts(&out, "! R args"); return; }
 	flags = (int)strtol(t[1], NULL, 0); depth = (int)strtol(t[2], NULL, 0);
@@ -237,6 +237,7 @@ static void cmd_reset(int nt, char **t)
 	  na = tot;
 	}
 	y = unhex(t[4], &ny);
+	flags_y = nt > 5 ? (int)strtol(t[5], NULL, 0) : flags;   /* the second document may be parsed under other flags (set after the reset) */
 	/* reference: blocks a new parser holds, and what it holds after one completed parse */
 	{ long b0 = vf_live_blocks; struct json_tokener *t0 = depth > 0 ? json_tokener_new_ex(depth) : json_tokener_new();
 	  live_new = vf_live_blocks - b0;
@@ -267,12 +268,13 @@ static void cmd_reset(int nt, char **t)
 		if (i == 0) live_cycle1 = vf_live_blocks - b0;
 	}
 	live_cycleN = vf_live_blocks - b0;
+	if (flags_y != flags) json_tokener_set_flags(tok, flags_y);
 	buf = (char *)malloc(ny ? ny : 1); memcpy(buf, y, ny);
 	o = json_tokener_parse_ex(tok, buf, (int)ny); take(tok, o, ny, &r2); free(buf);
 	json_tokener_free(tok);
 	}
 	fresh = depth > 0 ? json_tokener_new_ex(depth) : json_tokener_new();
-	json_tokener_set_flags(fresh, flags);
+	json_tokener_set_flags(fresh, flags_y);
 	buf = (char *)malloc(ny ? ny : 1); memcpy(buf, y, ny);
 	o = json_tokener_parse_ex(fresh, buf, (int)ny); take(fresh, o, ny, &rf); free(buf);
 	json_tokener_free(fresh);
